@@ -39,8 +39,9 @@ RULE = ("Hypothesis draws a ragged array description: 1..6 rows of length 1..7 (
         "all equal, or when it hits equal-length rows with a negative bound or step; for one-dimensional forms and "
         "attributes when there are >= 2 rows of unequal length. distinct = distinct canonical JSON of the case. "
         "Thorough additionally enumerates every length vector with <= 3 rows of length <= 3 against every pair of "
-        "slices with bounds in [-4,4] + None and steps {None,1,2,-1} (both dimensions), every (i,j) in [-5,5]^2 "
-        "and every a[slice, j].")
+        "slices (first dimension: bounds in [-(n+1), n+1] + None, steps {None,2,-1}; second dimension: bounds in "
+        "[-4,4] + None, steps {None,1,2,-1}), every a[slice] and a[i, slice] on that grid, every (i,j) in [-5,5]^2 "
+        "and every a[slice, j] with j in [-4,4].")
 ASSUMPTIONS = [
     "row lengths are positive (the class cannot represent empty rows); results with empty rows / no rows may raise",
     "index lists / arrays are non-empty integer sequences; paired fancy indices have equal length "
@@ -607,7 +608,10 @@ def exh_slice_pairs(tier, shard, nshards):
         hows = ("flat_nd", "arrays", "flat_pyint")
         k = 0
         for lv in small_length_vectors():
-            for s1 in small_slices():
+            n = len(lv)
+            # first dimension: bounds one beyond the number of rows on either side (further out is the same
+            # clipping class), steps None/2/-1; second dimension: the full [-4, 4] + None x {None, 1, 2, -1} grid
+            for s1 in small_slices(-n - 1, n + 1, (None, 2, -1)):
                 for s2 in small_slices():
                     k += 1
                     yield _with(_base(lv, hows[k % 3]), tup({"t": "slice", "v": s1}, {"t": "slice", "v": s2}))
